@@ -105,6 +105,10 @@ pub fn panel() -> Vec<Value> {
         json!([[[[[[1]]]]]]),
         json!({"a": {"a": {"a": {"a": {"a": 1}}}}}),
         json!([1.0, 1, "1", [1], {"1": 1}, true, null]),
+        // two operands taken from the document: containers holding the same number written differently
+        json!([{"a": {"n": 1}, "b": {"n": 1.0}}, {"a": {"n": 1}, "b": {"n": 2}}, {"a": [{"n": 10}], "b": [{"n": 1e1}]}, {"a": {"n": 1, "m": [2]}, "b": {"m": [2.0], "n": 1}}, {"a": 1}]),
+        // children told apart only by filters that are easily confused (see gen::alpha::CONFUSABLE)
+        json!([{"a": {"b": 1}}, {"ab": 1}, {"a": {"b": 1}, "ab": 1}, {"x": 1}, {"y": 1, "z": 1}, {"y": 1}, [5, [7]], [5, 6], [0, 1, 2, 3, 4, 5, 6, 7, 8, 9, 10]]),
     ];
     // arrays of arrays of growing length for `..[i]`
     for n in 0..4 {
